@@ -8,7 +8,7 @@ import MutagenModel.Spec.Info.TrueAudio
 import MutagenModel.Spec.Info.Tak
 import MutagenModel.Spec.Info.Musepack
 import MutagenModel.Spec.Info.Aac
-import MutagenModel.Model.Info.Ac3
+import MutagenModel.Spec.Info.Ac3
 import Driver.Util
 namespace Driver
 open Mutagen Mutagen.Info
@@ -114,6 +114,30 @@ def adtsFields (a : Args) : Spec.Aac.Adts :=
     frames := (cbs.zip (bfs.zip (nbs.zip bodies))).map fun (c, b, n, body) =>
       { copyrightBits := c, bufferFullness := b, nordbif := n, body := body } }
 
+def optArg (a : Args) (k : String) : Option Nat := if a.int k (-1) < 0 then none else some (a.nat k)
+def optBytesArg (a : Args) (k : String) : Option Bytes := if a.str k "none" == "none" then none else some (a.bytes k)
+
+def ac3Group (a : Args) (sfx : String) : Spec.Ac3.Group :=
+  { dialnorm := a.nat ("dn" ++ sfx), compr := optArg a ("compr" ++ sfx), langcod := optArg a ("lang" ++ sfx), audprod := optArg a ("prod" ++ sfx) }
+
+def ac3Fields (a : Args) : Spec.Ac3.Ac3 :=
+  { crc1 := a.nat "crc1", fscod := a.nat "fscod", frmsizecod := a.nat "fsc", bsid := a.nat "bsid", bsmod := a.nat "bsmod"
+    acmod := a.nat "acmod", cmixlev := a.nat "cmix", surmixlev := a.nat "surmix", dsurmod := a.nat "dsur", lfeon := a.nat "lfe"
+    g1 := ac3Group a "1", g2 := ac3Group a "2", copyrightb := a.nat "cb", origbs := a.nat "ob"
+    timecod1 := optArg a "tc1", timecod2 := optArg a "tc2", addbsi := optBytesArg a "addbsi", payload := a.bytes "payload" }
+
+def eac3Info (a : Args) : Spec.Ac3.InfoMd :=
+  { bsmod := a.nat "ibsmod", copyrightb := a.nat "icb", origbs := a.nat "iob", dsur4 := a.nat "idsur4", dsurex := a.nat "idsurex",
+    audprod := optArg a "iaud", audprod2 := optArg a "iaud2", sourcefscod := a.nat "isrc" }
+
+def eac3Fields (a : Args) : Spec.Ac3.Eac3 :=
+  { strmtyp := a.nat "strmtyp", substreamid := a.nat "sid", frmsiz := a.nat "frmsiz", fscod := a.nat "fscod", fscod2 := a.nat "fscod2",
+    numblkscod := a.nat "nb", acmod := a.nat "acmod", lfeon := a.nat "lfe", bsid := a.nat "bsid", dialnorm := a.nat "dn",
+    compr := optArg a "compr", dialnorm2 := a.nat "dn2", compr2 := optArg a "compr2", chanmap := optArg a "chanmap",
+    info := (if a.nat "info" == 1 then some (eac3Info a) else none),
+    convsync := a.nat "convsync", blkid := a.nat "blkid", frmsizecod := a.nat "fsc", addbsi := optBytesArg a "addbsi",
+    payload := a.bytes "payload" }
+
 def infoAParse (kind : String) (data : Bytes) (a : Args) : String :=
   match kind with
   | "WavPack" =>
@@ -175,6 +199,12 @@ def infoABuild (kind : String) (a : Args) : String :=
   | "AAC_ADTS" =>
     let h := adtsFields a
     s!"ok v={hexField (Spec.Aac.build h)} valid={if decide h.OK then 1 else 0}"
+  | "AC3" =>
+    let h := ac3Fields a
+    s!"ok v={hexField h.build} valid={if decide h.OK then 1 else 0}"
+  | "EAC3" =>
+    let h := eac3Fields a
+    s!"ok v={hexField h.build} valid={if decide h.OK then 1 else 0}"
   | _ => "bad-op"
 
 def infoAOp (a : Args) : String :=
